@@ -335,7 +335,7 @@ const (
 	tvBoundsByName
 )
 
-func isV(t ptype) bool     { return t >= tVBase }
+func isV(t ptype) bool     { return t >= tVBase && t < tSBase }
 func vOf(t ptype) *vtype   { return vParamTypes[t-tVBase] }
 func (m *mspec) isV() bool { return strings.HasPrefix(m.name, "v") && lookupVMethod(m.name) == m }
 
